@@ -63,6 +63,8 @@ fn step<D: DualNum<f64> + Clone>(op: &J, r: &[D]) -> D {
         "rmul_f" => a() * c(),
         "rdiv_f" => a().recip() * c(),
         "neg" => -a(),
+        // the staticmethod from_re of the register's class: a constant
+        "from_re" => D::from(c()),
         // x ** int / float / dual and the named power methods
         "pow_i" | "powi" => a().powi(op["n"].as_i64().expect("n") as i32),
         "pow_f" | "powf" => a().powf(c()),
